@@ -65,8 +65,9 @@ class C19(Property):
             "asymmetric neighbourhoods, cores before/after/across the origin), 0-6 candidate clusters over random subsets "
             "(all four kinds), 0-3 subregions and 0-6 genes incl. origin-spanning forward/reverse and multi-exon genes; "
             "regions built directly (`Region(candidates, subregions)`) or by `create_candidate_clusters` + "
-            "`create_regions`; plus `pack` alone on unsorted area lists; thorough/deep adds the exhaustive small scope "
-            "L=24, <=3 protoclusters on a 4-grid x region layouts.  non-trivial = the region extends over the origin "
+            "`create_regions`; plus `pack` alone on unsorted area lists; thorough/deep adds the small scope L=24, protocluster "
+            "extents/cores on a 4-grid of the ring (every single and every pair exhaustively, triples sampled), each with "
+            "and without an origin-spanning subregion and with origin-spanning genes.  non-trivial = the region extends over the origin "
             "(origin-spanning or whole circular record) with >=1 origin-spanning area or gene, or some row holds >=2 "
             "areas; distinct by canonical input")
     TRUSTED = [
@@ -215,7 +216,7 @@ class C19(Property):
         return {"kind": "pack", "L": L, "areas": areas, "length": length}
 
     def cases(self, rng: random.Random, tier: str, deep: bool) -> Iterator[Dict[str, Any]]:
-        n = 60000 if deep else 7000
+        n = 60000 if deep else 14000
         for i in range(n):
             if i % 8 == 7:
                 yield self.rand_pack(rng)
@@ -260,8 +261,12 @@ class C19(Property):
                 total += 1
                 yield {"kind": "regions", "L": L, "circular": True, "protos": protos, "cands": cands,
                        "subs": subs, "genes": genes, "mode": "direct"}
+        # complete for <= 2 protoclusters of the family (x with/without a subregion); triples are sampled
         self.exhaustive_done = full
-        self.extra_coverage = {"small_scope_cases": total}
+        self.extra_coverage = {"small_scope_cases": total, "small_scope_singles": len(singles),
+                               "small_scope_pairs": len(pairs) if full else 1500,
+                               "small_scope_note": "L=24, protocluster extents/cores on a 4-grid of the ring: every "
+                               "single and (thorough tier) every pair enumerated; triples sampled"}
 
     # ------------------------------------------------------------------ implementation adapter
     @staticmethod
